@@ -35,7 +35,7 @@ def impl_add(x, d):
 def correspondence(ctx):
     basecorr.run(ctx)
     rng = ctx.subrng("corr")
-    n = ctx.budget(12000, 400000)
+    n = ctx.budget(40000, 400000)
     reqs, exp = [], []
     for i in range(n):
         profile = "wild" if rng.random() < 0.35 else "c03"
@@ -137,7 +137,7 @@ def check_pair(ctx, kw, x, spec_resp):
 def oracle(ctx):
     from dateutil.relativedelta import relativedelta
     rng = ctx.subrng("oracle")
-    n = ctx.budget(15000, 500000)
+    n = ctx.budget(40000, 500000)
     pairs = []
     # failing-input search starts from inputs on which model and implementation differ
     for m in ctx.mismatches:
